@@ -31,6 +31,36 @@ def c02(tier, seed):
         jobs.append(J(G, "VerifE01Check", model=m, maxcands=10 if q else 14, seed=(seed + 2) % 7, breadth=1, timeout_ms=60000, unwind=64, max_paths=6000 if q else 60000))
         if not q:
             jobs.append(J(G, "VerifE01Check", model=m, maxcands=14, seed=seed % 7, opt=0, timeout_ms=60000, unwind=64, max_paths=60000))
+    # the two models on which the strategies are known to disagree (known findings H6, H10)
+    for m in ["h6", "condition_userset"]:
+        jobs.append(J(G, "VerifE01Check", model=m, maxcands=20, invalid=0, subjects="min", timeout_ms=60000, unwind=64, max_paths=6000))
+    return jobs
+
+
+V2 = "pkg/server/commands/v2breaking"
+
+
+def c03(tier, seed):
+    q = tier == "quick"
+    jobs = []
+    ms = ["direct", "wildcard", "union_computed", "exclusion", "intersection", "condition", "userset_flat", "userset", "condition_userset", "shared_tuples"] if q else MODELS_ALL
+    for m in ms:
+        jobs.append(J(V2, "VerifE03WeightedCheck", model=m, maxcands=12 if q else 16, invalid=0, subjects="all", seed=seed % 7,
+                      timeout_ms=60000, unwind=64, max_paths=3000 if q else 100000))
+        if not q:
+            jobs.append(J(V2, "VerifE03WeightedCheck", model=m, maxcands=12, seed=(seed + 1) % 7, timeout_ms=60000, unwind=64, max_paths=100000))
+    return jobs
+
+
+def c04(tier, seed):
+    q = tier == "quick"
+    jobs = []
+    ms = ["direct", "wildcard", "userset", "ttu", "exclusion", "intersection", "condition", "userset_flat"] if q else MODELS_ALL
+    for m in ms:
+        jobs.append(J(G, "VerifE01Check", model=m, maxcands=12 if q else 16, ctx=3 if q else 4, invalid=0, subjects="min" if q else "all",
+                      seed=seed % 7, timeout_ms=60000, unwind=64, max_paths=8000 if q else 100000))
+        if not q:
+            jobs.append(J(G, "VerifE01Check", model=m, maxcands=12, ctx=3, seed=(seed + 2) % 7, timeout_ms=60000, unwind=64, max_paths=100000))
     return jobs
 
 
@@ -49,6 +79,20 @@ SPEC = {
         "level_note": "bounds: model family of 12 (quick) / 17 models, 2 objects per type, <= 12/16 candidate tuples per run (seeded subset), all subjects (objects, usersets, typed wildcards); depth limit never reached; one canonical goroutine schedule per path. Trusted: engine semantics and library models listed in evidence, the reference semantics (~150 lines, harness/internal/vtsem), z3.",
         "assumptions": _E_ASSUME,
         "outside": ["contextual tuples (C04)", "universes beyond the bounds", "other interleavings than the canonical fair schedule", "real CEL outcomes"],
+    },
+    "C03": {
+        "jobs": c03,
+        "level_text": "bounded symbolic execution of the real weighted-graph Check engine (internal/check.Resolver with its default, weight-two and recursive strategies, modelgraph built by the real modelgraph.New) over the same symbolic store and reference semantics as C01: for object subjects every returned decision equals the reference; for userset and wildcard subjects every decision that differs from the reference (= the default engine's verified answer) must be reported by v2breaking.CheckReason; request-shape rejections are accepted as such; other errors must involve an unevaluable condition.",
+        "level_note": "bounds: 10 (quick) / 17 models, 2 objects per type, <= 12/16 candidates, all subjects; strategy choice per plan key is a solver variable; the fallback decision of CheckQueryV2 itself (IsV2CheckTerminalError) is not exercised; one canonical fair goroutine schedule per path",
+        "assumptions": _E_ASSUME,
+        "outside": ["CheckQueryV2's fallback plumbing and throttling", "the v2 query cache (Cache = noop here)", "contextual tuples through the v2 request indexes"],
+    },
+    "C04": {
+        "jobs": c04,
+        "level_text": "the C01 whole-engine harness with the tuple set split between the store and the request: the first k valid candidate tuples never reach the store reader; those that are present travel as contextual tuples through the real storagewrappers.CombinedTupleReader (and into the request's cache-key material). The reference semantics ignores the split, so on every path the solver shows: Check with contextual tuples = Check with the same tuples stored.",
+        "level_note": "bounds as C01 with k = 3 (quick) / 4 contextual-eligible candidates, <= 12/16 candidates; Check through the default engine only (BatchCheck delegates to Check: C07; ListObjects/ListUsers/Expand variants are outside until their engine harnesses carry the split); non-persistence across requests is not exercised here because no cache layer is in this chain (cache keys contain the contextual tuples: C24/C08)",
+        "assumptions": _E_ASSUME + ["contextual tuples are valid for the model and free of duplicates (request validation enforces both)"],
+        "outside": ["ListObjects / ListUsers / Expand with contextual tuples", "interleaving with other requests through a shared cache"],
     },
     "C02": {
         "jobs": c02,
